@@ -192,14 +192,14 @@ theorem bm_inner (f : Frame) (inner : Ctx) (rootF : Frame) (n : Ex) : BMAgree (f
     | un t o => simp [Frame.isOp] at hre
     | binL t o r =>
       simp only [fill_binL, left_bin, right_bin, isinstance_some, List.any, Bool.or_false, hholds_eq, hholds_const,
-        ctxRootSide_binL, Ref.anyOfType, anyHolds_add, Ref.value, Ref.get_term_ex, parentIs, allAdd, hbe, hbm, hba, hbp]
+        ctxRootSide_binL, Ref.anyOfType, anyHolds_add, Ref.value, get_term_ex_agree, Ref.get_term_ex, parentIs, allAdd, hbe, hbm, hba, hbp]
       clear hside
       cases be <;> cases bm <;> cases ba <;>
         rcases n with ⟨nt, nv⟩ | ⟨nt, nx⟩ | ⟨nt, nuo, nc⟩ | ⟨nt, no, nl, nr⟩ <;>
         simp [hpow', numEq, Ex.isConst, BMType.pyName] <;> (repeat' split) <;> simp_all [BMType.pyName]
     | binR t o l =>
       simp only [fill_binR, left_bin, right_bin, isinstance_some, List.any, Bool.or_false, hholds_eq, hholds_const,
-        ctxRootSide_binR, Ref.anyOfType, anyHolds_add, Ref.value, Ref.get_term_ex, parentIs, allAdd, hbe, hbm, hba, hbp]
+        ctxRootSide_binR, Ref.anyOfType, anyHolds_add, Ref.value, get_term_ex_agree, Ref.get_term_ex, parentIs, allAdd, hbe, hbm, hba, hbp]
       clear hside
       cases be <;> cases bm <;> cases ba <;>
         rcases n with ⟨nt, nv⟩ | ⟨nt, nx⟩ | ⟨nt, nuo, nc⟩ | ⟨nt, no, nl, nr⟩ <;>
